@@ -142,7 +142,7 @@ func (g *scriptGen) setStmt() *Stmt {
 		v := rapid.SampledFrom([]string{"f1", "f2"}).Draw(t, "v")
 		return &Stmt{K: "set", Var: v, Op: "=", E: not(varRef(v))}
 	case 1, 2:
-		return &Stmt{K: "set", Var: rapid.SampledFrom([]string{"k1", "k2"}).Draw(t, "v"), Op: rapid.SampledFrom([]string{"+=", "-=", "*="}).Draw(t, "op"), E: num(fmt.Sprint(rapid.IntRange(1, 2).Draw(t, "n")))}
+		return &Stmt{K: "set", Var: rapid.SampledFrom([]string{"k1", "k2"}).Draw(t, "v"), Op: rapid.SampledFrom([]string{"+=", "-=", "+="}).Draw(t, "op"), E: num(fmt.Sprint(rapid.IntRange(1, 2).Draw(t, "n")))}
 	case 3:
 		return &Stmt{K: "set", Var: "k1", Op: "=", E: bin("+", varRef("k1"), num("1"))}
 	case 4:
